@@ -28,7 +28,8 @@ MODES = ["O0"]
 TIERS = {"quick": {"runs": 1000, "wall": 55}, "thorough": {"runs": 16000, "wall": 1500}}
 RULE = ("plan = 2..6 PELs (some damaged) + plugin population with per-call fault tables + optional registry + history "
         "of 3..20 decode operations (-f, -a, -l, --bmc-id, parsePEL; -P/-r/-x variants); every operation is compared "
-        "with the same operation in a pristine module set.  distinct_nontrivial counts distinct abstract histories "
+        "with the same operation in a pristine module set; afterwards -a in both orders must show, as a multiset, the documents "
+        "-f shows per file (10% of the plans hold two logs with the same entry id).  distinct_nontrivial counts distinct abstract histories "
         "(sequence of (operation kind, target class, plugin behaviours fired)) of length >= 3.")
 COMPONENTS = {"real": ["pel.peltool.peltool.main() / parsePEL in-process, all module-level caches (userDataParsers, srcParsers, "
                        "calloutParsers, osrcParsers, componentIDs, registry)", "real subprocess interpreter for a sample of plans"],
@@ -62,6 +63,10 @@ def gen_plan(rng, tier, run):
     for p in pels:
         if not p.get("damaged") and p["recipe"]["creator"] == "O" and rng.random() < 0.5:
             p["recipe"]["sections"].append(pelgen.gen_ud(rng, "O", [("O", 0x2000)]))
+    if len(pels) >= 2 and rng.random() < 0.1:
+        # two different logs carrying the same entry id (restored archives, logs of two systems in one directory)
+        a, b = rng.sample(range(len(pels)), 2)
+        pels[b]["recipe"]["eid"] = pels[a]["recipe"]["eid"]
     bare = rng.random() < 0.12
     if bare:
         plugins = {}
@@ -232,7 +237,9 @@ def execute(plan):
         for sel in sels:
             if vio:
                 break
-            per_file = {}
+            # (compared as multisets of documents: two files may show the same entry id - a copy, a damaged copy, two
+            # logs of different creators - and each still has to appear with its own document)
+            per_file = []
             for p in plan["pels"]:
                 rf = w.run(["-f", "@/D/" + p["name"]] + sel)
                 okf, jf = common.parse_json_stream(rf.stdout) if rf.stdout else (False, None)
@@ -241,13 +248,9 @@ def execute(plan):
                         key = int(jf["Private Header"]["Entry Id"], 16)     # a damaged copy may show another id
                     except Exception:
                         continue
-                    if key in per_file:
-                        per_file = None          # two files showing one id: relation not applicable
-                        break
-                    per_file[key] = jf
-            if per_file is None:
-                bump("relation_skipped_duplicate_ids")
-                continue
+                    per_file.append((key, json.dumps(jf)))
+            if len({k for k, _ in per_file}) != len(per_file):
+                bump("relation_with_duplicate_ids")
             for extra in ([], ["-r"]):
                 rd = w.run(["-p", "@/D", "-a"] + sel + extra)
                 okd, jd = common.parse_json_stream(rd.stdout)
@@ -255,21 +258,19 @@ def execute(plan):
                 if not okd or not isinstance(jd, list):
                     vio.append(V("all-not-json", "%s: stdout is not a JSON array: %r" % (rd.argv, rd.stdout[:200])))
                     break
-                got = {}
+                got = []
                 for d in jd:
                     try:
-                        got[int(d["Private Header"]["Entry Id"], 16)] = d
+                        got.append((int(d["Private Header"]["Entry Id"], 16), json.dumps(d)))
                     except Exception:
                         pass
-                if set(got) != set(per_file):
+                if sorted(k for k, _ in got) != sorted(k for k, _ in per_file):
                     vio.append(V("all-vs-file-set-differs", "%s shows entry ids %s, but -f with the same options shows %s" % (
-                        rd.argv, sorted("%08X" % e for e in got), sorted("%08X" % e for e in per_file))))
+                        rd.argv, sorted("%08X" % e for e, _ in got), sorted("%08X" % e for e, _ in per_file))))
                     break
-                bad = [e for e in got if got[e] != per_file[e]]
-                if bad:
-                    e = bad[0]
-                    diff = [k for k in per_file[e] if per_file[e].get(k) != got[e].get(k)]
-                    vio.append(V("all-vs-file-differ", "%s: document of %08X differs from its -f document in sections %s" % (rd.argv, e, diff)))
+                if sorted(got) != sorted(per_file):
+                    e = sorted(set(got) - set(per_file))[0][0]
+                    vio.append(V("all-vs-file-differ", "%s: a document of %08X differs from its -f document" % (rd.argv, e)))
                     break
         ra = w.run(["-p", "@/D", "-a", "-E"])
         ok, ja = common.parse_json_stream(ra.stdout)
@@ -284,7 +285,7 @@ def execute(plan):
                 rf = w.run(["-f", "@/D/" + p["name"], "-E"])
                 okf, jf = common.parse_json_stream(rf.stdout) if rf.stdout else (False, None)
                 da = by.get(p["recipe"]["eid"])
-                if p.get("junk"):
+                if p.get("junk") or sum(1 for q in plan["pels"] if q["recipe"]["eid"] == p["recipe"]["eid"]) > 1:
                     continue
                 if okf and da is not None and jf != da:
                     diff = [k for k in jf if jf.get(k) != da.get(k)]
